@@ -709,7 +709,7 @@ def flow_extraction(event: TraceEvent, context: AbstractContext) -> list[TraceEv
 
 _recv_pattern = re.compile(r"[Rr][Ee][Cc][Vv]_(\d+)_")
 _bytes_pattern = re.compile(r" \[(\d+[Bb])\]")
-_sync_pattern = re.compile(" \\[sync=(.*)\\]")
+_sync_pattern = re.compile(" \\[sync=([^\\]]*)\\]")
 
 
 _rdma_send_pattern = re.compile(r'RdmaSend[^X]+Xseg[^D]+DmaO$')
